@@ -37,8 +37,14 @@ WALL_CAP = {"quick": 170, "thorough": 3000}
 
 
 def mk_event(i):
-    from watchdog.events import FileModifiedEvent
+    from watchdog.events import FileCreatedEvent, FileModifiedEvent, FileMovedEvent
 
+    # every third / fourth event is one of the synthetic events emitters generate for the contents of a directory that was
+    # renamed or moved in: triggering events like any other
+    if i % 4 == 3:
+        return FileMovedEvent(f"/t/old/e{i}", f"/t/e{i}", is_synthetic=True)
+    if i % 3 == 2:
+        return FileCreatedEvent(f"/t/e{i}", is_synthetic=True)
     return FileModifiedEvent(f"/t/e{i}")
 
 
@@ -69,6 +75,15 @@ def run_debouncer(b: Batch, cfg, instr=None, hold_plan=None):
             time.sleep(cfg["slow_cb"])
         with cb_lock:
             batches.append({"t": t0, "events": list(events)})
+            first = len(batches) == 1
+        if first and cfg.get("reenter") == "event":
+            # the callback feeds a follow-up event back into its own debouncer (it runs on the debouncer's thread)
+            e2 = mk_event(1000)
+            tc2 = time.monotonic()
+            deb.handle_event(e2)
+            handled.append((e2, tc2, time.monotonic()))
+        elif first and cfg.get("reenter") == "stop":
+            deb.stop()
 
     deb = EventDebouncer(interval, callback)
     handled = []  # (event, t_call, t_ret)
@@ -116,7 +131,7 @@ def run_debouncer(b: Batch, cfg, instr=None, hold_plan=None):
                     stopper.start()
                     stopper.join(0.15)
             hold.release()
-        early_stop = cfg.get("stop_after") is not None or (hold_plan or {}).get("stop_while_held")
+        early_stop = cfg.get("stop_after") is not None or (hold_plan or {}).get("stop_while_held") or cfg.get("reenter") == "stop"
         if not early_stop:
             # wait for the quiet period to elapse and the batch to arrive
             end = time.monotonic() + interval + cfg.get("slow_cb", 0) + 6.0
@@ -488,6 +503,8 @@ def deb_cfg(r):
         cfg["stop_after"] = r.randrange(n)
     if r.random() < 0.3:
         cfg["equal_events"] = True
+    if "stop_after" not in cfg and r.random() < 0.15:
+        cfg["reenter"] = r.choice(["event", "stop"])
     return cfg
 
 
